@@ -217,6 +217,26 @@ def lifecycle_table(ctx, meths):
             ctx.ob(rule, lab, ok,
                    f'[{lab}] {msg}; it {"raised " + raised if raised else "did"} {[(e[0], repr(e[1])[:40]) for e in log2]}', file=PREP, line=ex.lineno,
                    witness='prepare "select ?, ?" then execute with [1]')
+            if m == n and n > 0 and ok:
+                # a second execution of the same prepared statement: the stored statement was bound by the first one, so new values have nothing to be bound to;
+                # it must be refused (any exception), or bind the new values to the statement with its placeholders still in place
+                del log2[:]
+                values2 = [f'w{i}' for i in range(n)]
+                try:
+                    it2.call_function(ex, [self2, values2], {}, Env())
+                    raised2 = None
+                except Raised as r:
+                    raised2 = r.exc_name
+                nrows += 1
+                fills2 = [e for e in log2 if e[0] == 'fill']
+                plans2 = [e for e in log2 if e[0] == 'plan']
+                rebound = len(fills2) == 1 and fills2[0][1] is not filled and isinstance(fills2[0][1], Obj) and fills2[0][1] == query and fills2[0][2] == values2
+                ok2 = (raised2 is not None and not plans2) or (raised2 is None and rebound and len(plans2) == 1)
+                ctx.ob('C12.second-execution', f'{label}', ok2,
+                       f'[{label}] a second execute_steps with new values on the same prepared statement '
+                       f'{"raised " + raised2 if raised2 else "did"} {[(e[0], repr(e[1])[:40]) for e in log2]}: the statement stored by the first execution has no '
+                       f'placeholders left, so the new values are dropped and the plan of the FIRST values is returned again', file=PREP, line=ex.lineno,
+                       witness='prepare "insert into t values (?, ?)", execute [1, 2], execute [3, 4]')
     ctx.setcount('fill_sites', 1)
     ctx.setcount('lifecycle_rows', nrows)
     ctx.floor('lifecycle_rows', 60)
